@@ -52,6 +52,11 @@ def gen_cfg(r, i):
             cfg.pop(k_, None)
         cfg.update(half=2.5 * sc, prop_sigma=2.0 * sc, prop_mu=0.0, like_center=0.8 * sc, like_width=0.6 * sc, tiny_scale=sc,
                    precond={"bounded_to_unbounded": False, "affine_transform": True})
+    if s in ("emcee", "emcee_smc") and i % 15 >= 10 and "tiny_scale" not in cfg:
+        # more dimensions than half the requested population (the real emcee has an opinion about that; aspire's contract is the size asked for)
+        cfg.update(dims=int(r.choice([6, 8])), n_samples=int(r.choice([9, 12])), half=4.0, prop_sigma=2.0)
+        for k_ in ("prop_kind", "like_cut", "like_center", "prop_mu"):
+            cfg.pop(k_, None)
     if s.endswith("_smc") and r.random() < 0.4:
         cfg["n_final_samples"] = int(cfg["n_samples"] * r.choice([0.5, 2]))
     if s == "minipcn_smc":
@@ -342,6 +347,44 @@ def check_resumed_objects(chk):
         shutil.rmtree(tmp, ignore_errors=True)
 
 
+def check_real_flow_large_population(chk):
+    """a REAL zuko proposal and a population of several thousand particles (not a multiple of any power of two): the log q stored with row i
+    of every population is the proposal's density at row i - recomputed here in small blocks, never in one call of the size the library used"""
+    import torch
+
+    from aspire.flows import get_flow_wrapper
+    from aspire.samplers.smc.minipcn import MiniPCNSMC
+    from aspire.transforms import FlowTransform
+
+    F, fxp = get_flow_wrapper("zuko")
+    n = 4500
+    case = {"level": "real_flow_large_population", "backend": "zuko", "n_samples": n}
+    chk.count("real_flow_large_population")
+    chk.case(None, json.dumps(case))
+    try:
+        params = ["p0", "p1"]
+        tr = FlowTransform(parameters=params, prior_bounds={p: [-10.0, 10.0] for p in params}, bounded_to_unbounded=False, affine_transform=False,
+                           xp=fxp, dtype="float64")
+        f = F(dims=2, device="cpu", data_transform=tr, dtype="float64", seed=3)
+        t = smcrun.Target(2, center=0.3, width=1.0, half=10.0)
+        s = MiniPCNSMC(log_likelihood=t.log_likelihood, log_prior=t.log_prior, dims=2, prior_flow=f, xp=fxp, dtype="float64", parameters=params,
+                       rng=np.random.default_rng(4))
+        with torch.no_grad():
+            s.sample(n, adaptive=False, n_steps=2, sampler_kwargs={"n_steps": 1})
+        for ti, pop in enumerate(s.history.sample_history):
+            x, lq = ns.to_np(pop.x), ns.to_np(pop.log_q)
+            ref = np.concatenate([ns.to_np(f.log_prob(torch.as_tensor(x[a:a + 250], dtype=torch.float64)).detach()) for a in range(0, len(x), 250)])
+            if len(x) != n or not np.allclose(lq, ref, rtol=1e-8, atol=1e-8):
+                j = int(np.argmax(~np.isclose(lq, ref, rtol=1e-8, atol=1e-8))) if len(lq) == len(ref) else -1
+                chk.fail("stored log-densities are L, pi, q at the row's coordinates", dict(case, where=f"history[{ti}]"),
+                         f"history[{ti}] ({len(x)} rows): row {j} stores log q = {lq[j] if j >= 0 else None!r}, the proposal at its coordinates gives {ref[j] if j >= 0 else None!r} "
+                         f"({int((~np.isclose(lq, ref, rtol=1e-8, atol=1e-8)).sum()) if len(lq) == len(ref) else 'shape'} rows differ)",
+                         {"clause": "coherent", "level": "real_flow_large_population", "field": "lq"})
+                break
+    except Exception as e:   # noqa
+        chk.fail("run total", case, repr(e)[:300], {"clause": "raise", "level": "real_flow_large_population"})
+
+
 def check_second_analysis(chk):
     """the same `Aspire` object analyses a second data set with the same proposal and the same sampler configuration: the user replaces
     `log_likelihood` / `log_prior` (public attributes; `enable_pool` itself swaps them) between two `sample_posterior` calls.  Every set the
@@ -404,6 +447,7 @@ def run(chk: core.Check):
     check_reload(chk)
     check_resumed_objects(chk)
     check_second_analysis(chk)
+    check_real_flow_large_population(chk)
     for (case, ix, ilq, ilp), rep in zip(keep, drv.batch(lines)):
         if not rep.ok:
             raise core.HarnessError(rep.err)
@@ -433,7 +477,7 @@ def replay(chk: core.Check, path: str) -> int:
     doc = json.loads(open(path).read())
     p = doc["payload"]
     cases = [p["case"]] if "case" in p else [d["case"] for d in p.get("correspondence", [])]
-    LEVELS = {"second_analysis": check_second_analysis, "resumed_object": check_resumed_objects, "reload": check_reload,
+    LEVELS = {"real_flow_large_population": check_real_flow_large_population, "second_analysis": check_second_analysis, "resumed_object": check_resumed_objects, "reload": check_reload,
               "pool": lambda k: check_pool(k, False)}
     for c in cases:
         if "cfg" in c:
